@@ -50,7 +50,9 @@ CHECKS["C01"] = dict(
 _SM_RULE = ("rapid state machine (t.Repeat, about 30 steps per case) over one real instance: create (points-first or "
             "edge-first), mirror under a second parent, place under a parent id that has no edge yet, attach an edge above "
             "an already populated subtree, tombstone/undelete (fresh or stale timestamp), node-point and edge-point batches "
-            "(1-4 points, colliding identities, stale times, -0/Inf/subnormal values), re-delivery of earlier batches; "
+            "(1-4 points, colliding identities, stale times, -0/Inf/subnormal values), re-delivery of earlier batches, points "
+            "written without a time (stamped by the store, read back and checked against the wall-clock window), the public "
+            "helpers client.MirrorNode / MoveNode / DeleteNode on valid targets; "
             "after EVERY step the full dump (walk from the root, deleted included, plus detached placements) is compared "
             "with the model graph: edge set, types, newest point per identity, and every stored hash against the Merkle "
             "hash recomputed from the dump by an independent CRC/XOR implementation; every write's up.> traffic is "
